@@ -350,3 +350,36 @@ func Explain(path string) error {
 	}
 	return nil
 }
+
+// MergeSelftest merges the thorough tier's self-test results (variants detected / benign variants silent / 386 build
+// variant) into the evidence; an undetected variant, a noisy benign variant or a failing 386 run is a violation.
+func (res *Result) MergeSelftest(path string) error {
+	b, err := os.ReadFile(path)
+	if err != nil {
+		return err
+	}
+	var st map[string]interface{}
+	if err := json.Unmarshal(b, &st); err != nil {
+		return err
+	}
+	res.Extra["selftest"] = st
+	add := func(construct, why string) {
+		o := Ob{Rule: "SELFTEST", Construct: construct, Status: Undecided, Why: why, Nontrivial: true}
+		res.Obs = append(res.Obs, o)
+		res.Violations = append(res.Violations, o)
+	}
+	if l, ok := st["undetected"].([]interface{}); ok {
+		for _, v := range l {
+			add(fmt.Sprint(v), "a variant of the repository that is known to break the property was not reported: the rule is weaker than documented")
+		}
+	}
+	if l, ok := st["noisy"].([]interface{}); ok {
+		for _, v := range l {
+			add(fmt.Sprint(v), "a behaviour-preserving variant of the repository raised an alarm")
+		}
+	}
+	if s, ok := st["arch386"].(string); ok && s != "ok" && s != "" {
+		add("GOARCH=386", "the 32-bit build variant does not pass: "+s)
+	}
+	return nil
+}
